@@ -82,24 +82,37 @@ def _main_loop(ck, prog):
           expected="f starts at e", found=[unparse(s.value) for s in finit], slot="f-initial", where=f.loc())
     # ---- (1b) start state
     src = {unparse(s.targets[0]): s for s in pre if isinstance(s, ast.Assign)}
+    ck.shape("oseq" in src and isinstance(src["oseq"].value, ast.Call) and prog.class_of_ctor(f.mod, src["oseq"].value) == "Sequence",
+             "run_normal_WL: start state oseq built by the Sequence constructor before the loop", f.loc())
+    c = src["oseq"].value
+    arg = c.args[0] if c.args else next((k.value for k in c.keywords if k.arg == "seq"), None)
+    ck.shape(arg is not None, "run_normal_WL: Sequence(...) start state has a sequence argument", f.loc(c))
+    extra = len(c.args) + len(c.keywords) - 1
+    perm = unparse(arg)
+    dm = [s for s in pre if isinstance(s, ast.Assign) and isinstance(s.targets[0], ast.Tuple) and perm in [unparse(e) for e in s.targets[0].elts]]
+    det = {"oseq": unparse(c), "permutant_from": unparse(dm[0].value) if dm else None}
+    direct = perm.replace(" ", "") in ("self.seq.seq", "self.seq.seq[:]", "str(self.seq.seq)")      # the input sequence itself: definitely not its permutant
+    ck.shape(direct or len(dm) == 1, "run_normal_WL: start sequence is a component of a tuple-unpacked call result", f.loc(c))
     ok = False
-    det = {}
-    if "oseq" in src and isinstance(src["oseq"].value, ast.Call) and prog.class_of_ctor(f.mod, src["oseq"].value) == "Sequence":
-        c = src["oseq"].value
-        arg = c.args[0] if c.args else next((k.value for k in c.keywords if k.arg == "seq"), None)
-        extra = len(c.args) + len(c.keywords) - 1
-        perm = unparse(arg) if arg is not None else None
-        dm = [s for s in pre if isinstance(s, ast.Assign) and isinstance(s.targets[0], ast.Tuple) and perm in [unparse(e) for e in s.targets[0].elts]]
-        det = {"oseq": unparse(c), "permutant_from": unparse(dm[0].value) if dm else None}
-        ok = extra == 0 and len(dm) == 1 and unparse(dm[0].value).replace(" ", "") == "self.seq.deltaMax(returnSeqDeltaMax=True)" \
+    if dm:
+        call = dm[0].value
+        ck.shape(isinstance(call, ast.Call) and isinstance(call.func, ast.Attribute), "run_normal_WL: start permutant from a method call", f.loc(dm[0]))
+        callee = prog.resolve_call(f, call)
+        ck.shape(callee is not None, "run_normal_WL: resolvable producer of the start permutant", f.loc(dm[0]))
+        flag = [k for k in call.keywords if k.arg == "returnSeqDeltaMax"] or ([None] if len(call.args) >= 1 else [])
+        flag_true = bool(flag) and (unparse(flag[0].value) if flag[0] is not None else unparse(call.args[0])) == "True"
+        ok = extra == 0 and callee.key == SEQ + ":Sequence.deltaMax" and unparse(call.func.value) == "self.seq" and flag_true \
             and [unparse(e) for e in dm[0].targets[0].elts].index(perm) == 1
     ck.ob("TEMPLATE-start", construct, ok, expected="oseq = Sequence(<delta-max permutant of the input sequence>)", found=det, slot="start-state", where=f.loc())
     # bins of the start state
     k0 = src.get("kold")
     i0 = src.get("idx_old")
-    ck.ob("TEMPLATE-start", construct, k0 is not None and unparse(k0.value) == "oseq.kappa()" and i0 is not None
-          and unparse(i0.value).replace(" ", "") == "np.argmin(abs(bincts-kold))", expected="idx_old = bin of oseq.kappa()", found=[unparse(x.value) for x in (k0, i0) if x],
-          slot="start-bin", where=f.loc())
+    ck.shape(i0 is not None, "run_normal_WL: idx_old initialised before the loop", f.loc())
+    i0t = unparse(i0.value).replace(" ", "")
+    forms = ("np.argmin(abs(bincts-kold))", "np.argmin(np.abs(bincts-kold))", "np.argmin(abs(bincts-oseq.kappa()))", "np.argmin(np.abs(bincts-oseq.kappa()))")
+    ck.shape(i0t in forms or "argmin" in i0t, "run_normal_WL: start bin computed with argmin", f.loc())
+    ck.ob("TEMPLATE-start", construct, i0t in forms and (i0t.endswith("oseq.kappa()))") or (k0 is not None and unparse(k0.value) == "oseq.kappa()")),
+          expected="idx_old = bin of oseq.kappa()", found=[unparse(x.value) for x in (k0, i0) if x], slot="start-bin", where=f.loc())
     # ---- one symbolic iteration
     ev = Evaluator(prog, positive=())
     ev.model_ctors = True
@@ -246,18 +259,59 @@ def _is_accept_cond(c):
 def _flatcheck(ck, prog):
     f = prog.fn(WL, "WangLandauMachine.__run_flatcheck")
     construct = WL_PATH + ":" + f.qual
-    fl = [s for s in f.body() if isinstance(s, ast.Assign) and "np.where" in unparse(s.value)]
-    ok = len(fl) == 1 and unparse(fl[0].value).replace(" ", "") == "len(np.where(Hlocal/np.mean(Hlocal)>=self.flatcrit)[0])"
-    ck.ob("TEMPLATE-flat", construct, ok, expected="#{b : Hlocal[b]/mean(Hlocal) >= flatcrit}", found=[unparse(s.value) for s in fl], slot="flatness-count", where=f.loc())
-    if len(fl) != 1:
-        return
-    name = unparse(fl[0].targets[0])
+    from lcsa.bind import inline_locals
+    # the flatness count: the one name compared with self.nbins_target
+    tests = [n for n in ast.walk(f.node) if isinstance(n, ast.Compare) and len(n.ops) == 1 and isinstance(n.ops[0], (ast.Eq, ast.NotEq))
+             and "self.nbins_target" in (unparse(n.left), unparse(n.comparators[0]))]
+    ck.shape(len(tests) == 1, "__run_flatcheck: one comparison of the flat-bin count with self.nbins_target", f.loc())
+    side = tests[0].left if unparse(tests[0].comparators[0]) == "self.nbins_target" else tests[0].comparators[0]
+    ck.shape(isinstance(side, ast.Name), "__run_flatcheck: the flat-bin count is held in a local", f.loc(tests[0]))
+    name = side.id
+    fl = [s for s in f.body() if isinstance(s, ast.Assign) and unparse(s.targets[0]) == name]
+    ck.shape(len(fl) == 1, "__run_flatcheck: the flat-bin count is assigned once", f.loc())
+    inlined = set()
+    full = inline_locals(f, fl[0].value, used=inlined)
+    txt = unparse(full).replace(" ", "")
+    # recognised counting forms: len(np.where(C)[0]) | np.sum(C) | np.count_nonzero(C) | int(np.sum(C))
+    cond = None
+    x = full
+    if isinstance(x, ast.Call) and unparse(x.func) == "int" and len(x.args) == 1:
+        x = x.args[0]
+    if isinstance(x, ast.Call) and unparse(x.func) == "len" and len(x.args) == 1 and isinstance(x.args[0], ast.Subscript) and unparse(x.args[0].slice) == "0" \
+            and isinstance(x.args[0].value, ast.Call) and unparse(x.args[0].value.func) in ("np.where", "np.nonzero") and len(x.args[0].value.args) == 1:
+        cond = x.args[0].value.args[0]
+    elif isinstance(x, ast.Call) and unparse(x.func) in ("np.sum", "np.count_nonzero", "sum") and len(x.args) == 1:
+        cond = x.args[0]
+    ck.shape(isinstance(cond, ast.Compare) and len(cond.ops) == 1, "__run_flatcheck: count of the bins satisfying one comparison", f.loc(fl[0]))
+    def _txt(e):
+        t_ = unparse(e).replace(" ", "")
+        for w_ in ("np.array(Hlocal)", "np.asarray(Hlocal)", "np.array(Hlocal,dtype=float)", "np.asarray(Hlocal,dtype=float)"):
+            t_ = t_.replace(w_, "Hlocal")
+        return t_
+    lhs, op, rhs = _txt(cond.left), type(cond.ops[0]).__name__, _txt(cond.comparators[0])
+    ratio_forms = ("Hlocal/np.mean(Hlocal)", "Hlocal/Hlocal.mean()", "Hlocal/(np.sum(Hlocal)/len(Hlocal))", "Hlocal/(sum(Hlocal)/len(Hlocal))")
+    ck.shape(("Hlocal" in lhs and rhs == "self.flatcrit") or ("Hlocal" in rhs and lhs == "self.flatcrit") or lhs == "Hlocal", "__run_flatcheck: bins compared with the flatness criterion", f.loc(fl[0]))
+    if lhs == "self.flatcrit":
+        lhs, rhs, op = rhs, lhs, {"LtE": "GtE", "Lt": "Gt", "GtE": "LtE", "Gt": "Lt"}.get(op, op)
+    if lhs == "Hlocal":
+        ck.shape(rhs.replace(" ", "") in ("self.flatcrit*np.mean(Hlocal)", "np.mean(Hlocal)*self.flatcrit"), "__run_flatcheck: cross-multiplied flatness test", f.loc(fl[0]))
+        lhs, rhs = ratio_forms[0], "self.flatcrit"
+    ck.shape(lhs in ratio_forms or not lhs.startswith("Hlocal/"), "__run_flatcheck: bin count relative to a recognised mean form", f.loc(fl[0]))
+    ok = lhs in ratio_forms and op == "GtE" and rhs == "self.flatcrit"
+    ck.ob("TEMPLATE-flat", construct, ok, expected="#{b : Hlocal[b]/mean(Hlocal) >= flatcrit}", found=txt, slot="flatness-count", where=f.loc(fl[0]))
     ev = Evaluator(prog, positive=())
     ev.skip_calls = {"writeLog", "print"}
+    ev.opaque_calls[WL + ":WangLandauMachine.getBinCenters"] = lambda b: ArrV("bincts")      # only printed here
     fr = _Frame(f, 0)
     env = {"self": ObjV("WangLandauMachine"), "H": ArrV("H"), "Hlocal": ArrV("Hlocal"), "niter": Rat.atom("niter"), "f": Rat.atom("f"),
            "hlog": "hlog", "glog": "glog", "g": ArrV("g"), name: Rat.atom("FLAT")}
-    stmts = [s for s in f.body() if s is not fl[0]]
+    # the statements that only build the count are replaced by the atom FLAT (their names must not be used elsewhere)
+    feed = [s for s in f.body() if isinstance(s, ast.Assign) and len(s.targets) == 1 and isinstance(s.targets[0], ast.Name) and s.targets[0].id in inlined]
+    for s_ in feed:
+        uses = [n for n in ast.walk(f.node) if isinstance(n, ast.Name) and n.id == s_.targets[0].id and isinstance(n.ctx, ast.Load)]
+        inside = {id(n) for q in feed + [fl[0]] for n in ast.walk(q)}
+        ck.shape(all(id(n) in inside for n in uses), "__run_flatcheck: intermediate '%s' of the flat-bin count is used only there" % s_.targets[0].id, f.loc(s_))
+    stmts = [s for s in f.body() if s is not fl[0] and s not in feed]
     paths = ev.exec_block(stmts, [Path([], "live", None, env)], fr)
     rows = []
     for p in paths:
@@ -301,29 +355,53 @@ def _outputs(ck, prog):
     f = prog.fn(WL, "WangLandauMachine.run_normal_WL")
     construct = WL_PATH + ":" + f.qual
     rets = [n for n in ast.walk(f.node) if isinstance(n, ast.Return) and n.value is not None]
-    ck.ob("TEMPLATE-output", construct, len(rets) == 1 and unparse(rets[0].value).replace(" ", "") == "np.vstack((bincts,g))", expected="np.vstack((bincts, g))",
-          found=[unparse(r.value) for r in rets], slot="returned-array", where=f.loc())
+    ck.shape(len(rets) == 1 and isinstance(rets[0].value, ast.Call) and unparse(rets[0].value.func) in ("np.vstack", "np.array", "np.stack"), "run_normal_WL: returns a stacked array", f.loc())
+    a = rets[0].value.args[0]
+    ck.shape(isinstance(a, (ast.Tuple, ast.List)) and len(a.elts) == 2, "run_normal_WL: two stacked rows", f.loc(rets[0]))
+    ck.ob("TEMPLATE-output", construct, [unparse(e) for e in a.elts] == ["bincts", "g"], expected="rows: bin centres, g", found=[unparse(e) for e in a.elts], slot="returned-array",
+          where=f.loc(rets[0]))
     bc = [s for s in f.body() if isinstance(s, ast.Assign) and unparse(s.targets[0]) == "bincts"]
-    ck.ob("TEMPLATE-output", construct, len(bc) == 1 and unparse(bc[0].value) == "self.getBinCenters()", expected="bincts = self.getBinCenters()",
-          found=[unparse(b.value) for b in bc], slot="centres-source", where=f.loc())
+    ck.shape(len(bc) == 1, "run_normal_WL: bincts assigned once", f.loc())
+    ck.ob("TEMPLATE-output", construct, unparse(bc[0].value) == "self.getBinCenters()", expected="bincts = self.getBinCenters()", found=unparse(bc[0].value), slot="centres-source",
+          where=f.loc(bc[0]))
     # DOS writers pair bincts[i] with g[i]
-    loops = [s for s in f.body() if isinstance(s, ast.For)]
     pairs = []
-    for lp in loops:
+    loop = _loop_of(f)
+    after = [s for s in f.body() if s.lineno > loop.end_lineno]
+    for lp in [n for s in after for n in ast.walk(s) if isinstance(n, ast.For)]:
         for n in ast.walk(lp):
-            if isinstance(n, ast.BinOp) and isinstance(n.op, ast.Mod) and isinstance(n.right, ast.Tuple):
-                pairs.append((unparse(lp.iter).replace(" ", ""), [unparse(e).replace(" ", "") for e in n.right.elts], lp.target.id))
-    okd = len(pairs) == 2 and all(p[1] == ["bincts[%s]" % p[2], "g[%s]" % p[2]] for p in pairs) \
-        and pairs[0][0] in ("range(len(bincts))", "range(0,len(bincts))") and pairs[1][0] == "range(self.relevant_min,self.relevant_max+1)"
-    ck.ob("TEMPLATE-output", construct, okd, expected="DOS.txt: (bincts[i], g[i]) for every bin; DOS_local.txt: the same pairs for relevant_min..relevant_max",
-          found=pairs, slot="dos-writers", where=f.loc())
-    # the sequence log pairs a sequence with its own kappa
+            if isinstance(n, ast.BinOp) and isinstance(n.op, ast.Mod) and isinstance(n.right, ast.Tuple) and len(n.right.elts) == 2:
+                it = unparse(lp.iter).replace(" ", "")
+                elts = [unparse(e).replace(" ", "") for e in n.right.elts]
+                if isinstance(lp.target, ast.Name):
+                    v = lp.target.id
+                    # index form: normalise X[v] -> X
+                    norm = [e[:-len("[%s]" % v)] if e.endswith("[%s]" % v) else None for e in elts]
+                elif isinstance(lp.target, ast.Tuple) and isinstance(lp.iter, ast.Call) and unparse(lp.iter.func) == "zip" and len(lp.iter.args) == len(lp.target.elts):
+                    tn = [unparse(e) for e in lp.target.elts]
+                    za = [unparse(a).replace(" ", "") for a in lp.iter.args]
+                    norm = [za[tn.index(e)] if e in tn else None for e in elts]
+                    it = "zip:" + ",".join(sorted(za))
+                else:
+                    norm = [None, None]
+                pairs.append((it, norm, elts, n))
+    ck.shape(len(pairs) == 2 and all(None not in p[1] for p in pairs), "run_normal_WL: two DOS writer loops that format (centre, g) of one bin per line", f.loc())
+    for it, norm, elts, node in pairs:
+        ck.ob("TEMPLATE-output", construct, norm == ["bincts", "g"], expected="(bincts[i], g[i]) of the same bin", found=elts, slot="dos-pair@%d" % (node.lineno - f.node.lineno),
+              where=f.loc(node))
+    full = [p for p in pairs if p[0] in ("range(len(bincts))", "range(0,len(bincts))", "range(self.nbins_actual)", "range(0,self.nbins_actual)", "range(len(g))", "zip:bincts,g")]
+    local = [p for p in pairs if p[0] == "range(self.relevant_min,self.relevant_max+1)"]
+    ck.shape(all(p in full + local or p[0].startswith("range(") for p in pairs), "run_normal_WL: DOS loop domains are ranges (or a zip of both rows)", f.loc())
+    ck.ob("TEMPLATE-output", construct, len(full) == 1 and len(local) == 1, expected="DOS.txt over every bin; DOS_local.txt over relevant_min..relevant_max",
+          found=[p[0] for p in pairs], slot="dos-domains", where=f.loc())
     logs = [n for n in ast.walk(f.node) if isinstance(n, ast.Call) and getattr(n.func, "attr", "") == "writeLog" and n.args and unparse(n.args[0]) == "seqlog"
-            and isinstance(n.args[1], ast.BinOp)]
-    okl = bool(logs) and all(isinstance(n.args[1].right, ast.Tuple) and len(n.args[1].right.elts) == 2
-                             and unparse(n.args[1].right.elts[0]) == unparse(n.args[1].right.elts[1]) + ".kappa()" for n in logs)
-    ck.ob("TEMPLATE-output", construct, okl, expected="seqlog line = (X.kappa(), X) for one object X", found=[unparse(n.args[1].right) for n in logs], slot="seqlog",
-          where=f.loc())
+            and len(n.args) > 1 and isinstance(n.args[1], ast.BinOp) and isinstance(n.args[1].right, ast.Tuple) and len(n.args[1].right.elts) == 2]
+    ck.shape(bool(logs), "run_normal_WL: sequence log line formatted from a (kappa, sequence) tuple", f.loc())
+    for n in logs:
+        k, sq = [unparse(e) for e in n.args[1].right.elts]
+        ck.shape(k.endswith(".kappa()") or k in ("kold", "knew"), "seqlog: kappa operand form", f.loc(n))
+        ok = k == sq + ".kappa()" or (k == "kold" and sq == "oseq")
+        ck.ob("TEMPLATE-output", construct, ok, expected="seqlog line = (X.kappa(), X) for one object X", found=[k, sq], slot="seqlog", where=f.loc(n))
 
 
 def _route(ck, prog):
